@@ -12,3 +12,22 @@ Theorem C09_read_loop_is_assignment : forall lines ln tgs asg,
   results_of lines ln = Some asg -> read_lines lines ln tgs [] = (assign_all asg tgs, []).
 Proof. exact read_lines_ok. Qed.
 Print Assumptions C09_read_loop_is_assignment.
+
+(* chunking: however the source delivers the same bytes - any number of reads of any sizes - the
+   scanner's tokens and stop status, hence the whole result of the read, are the same. The scanner
+   model (buffer growth, 64 KiB limit, sticky status) refines a reference tokenizer of the whole stream. *)
+From Wire Require Import Theory.ScanSpec.
+
+Theorem C09_scanner_is_the_reference_tokenizer : forall chunks final,
+  scan chunks final = tokens_ref (S (length (concat chunks))) (concat chunks) final [].
+Proof. exact scan_is_reference. Qed.
+Print Assumptions C09_scanner_is_the_reference_tokenizer.
+
+Theorem C09_chunking_irrelevant : forall preset opts chunks1 chunks2 final,
+  concat chunks1 = concat chunks2 -> read_model preset opts chunks1 final = read_model preset opts chunks2 final.
+Proof. exact read_chunking_irrelevant. Qed.
+Print Assumptions C09_chunking_irrelevant.
+
+(* non-vacuity: two different chunkings of one stream *)
+Example two_chunkings : concat [bs "{1500}30"; bs "User ReqT "] = concat [bs "{15"; bs "00}30User"; bs " ReqT "].
+Proof. reflexivity. Qed.
